@@ -3,6 +3,45 @@ import QclibModel.Proofs.PqmProof
 namespace Qclib
 open Complex
 
+/-! ### Helper facts about the concrete rotation semantics `RotSem ℝ ℂ` -/
+
+private theorem ex_sq_real (θ : ℝ) :
+    (RotSem.ex θ : ℂ) * RotSem.ex θ = Complex.exp ((θ : ℂ) * Complex.I) := by
+  show Complex.exp (((θ / 2 : ℝ) : ℂ) * Complex.I) * Complex.exp (((θ / 2 : ℝ) : ℂ) * Complex.I)
+    = Complex.exp ((θ : ℂ) * Complex.I)
+  rw [← Complex.exp_add]; congr 1; push_cast; ring
+
+private theorem rh_sq_real : (RotSem.rh ℝ : ℂ) * RotSem.rh ℝ = 1 / 2 := by
+  have h := (instRotLawsReal).rh_sq
+  have h2 : (2 : ℂ) ≠ 0 := two_ne_zero
+  rw [eq_div_iff h2, mul_comm]; exact h
+
+/-- `z0 = (e^{-iπ/2n})^d = cos x - i sin x`, `x = π d / 2n`. -/
+private theorem pqm_z0 (n : Nat) (hn : 0 < n) (d : Nat) :
+    ((RotSem.ex (-(Real.pi / (2 * n)) : ℝ) : ℂ) * RotSem.ex (-(Real.pi / (2 * n)) : ℝ)) ^ d
+      = (Real.cos (Real.pi * d / (2 * n)) : ℂ) - (Real.sin (Real.pi * d / (2 * n)) : ℂ) * Complex.I := by
+  have hn' : (n : ℂ) ≠ 0 := by exact_mod_cast hn.ne'
+  rw [ex_sq_real, ← Complex.exp_nat_mul]
+  have : (d : ℂ) * (((-(Real.pi / (2 * n)) : ℝ) : ℂ) * Complex.I)
+      = (((-(Real.pi * d / (2 * n)) : ℝ)) : ℂ) * Complex.I := by
+    push_cast; field_simp
+  rw [this, Complex.exp_mul_I, ← Complex.ofReal_cos, ← Complex.ofReal_sin, Real.cos_neg,
+    Real.sin_neg]
+  push_cast; ring
+
+/-- `z1 = (e^{-iπ/2n}·e^{iπ/n})^d = cos x + i sin x`. -/
+private theorem pqm_z1 (n : Nat) (hn : 0 < n) (d : Nat) :
+    (((RotSem.ex (-(Real.pi / (2 * n)) : ℝ) : ℂ) * RotSem.ex (-(Real.pi / (2 * n)) : ℝ))
+        * ((RotSem.ex (Real.pi / n : ℝ) : ℂ) * RotSem.ex (Real.pi / n : ℝ))) ^ d
+      = (Real.cos (Real.pi * d / (2 * n)) : ℂ) + (Real.sin (Real.pi * d / (2 * n)) : ℂ) * Complex.I := by
+  have hn' : (n : ℂ) ≠ 0 := by exact_mod_cast hn.ne'
+  rw [ex_sq_real, ex_sq_real, ← Complex.exp_add, ← Complex.exp_nat_mul]
+  have : (d : ℂ) * ((((-(Real.pi / (2 * n)) : ℝ)) : ℂ) * Complex.I
+        + ((Real.pi / n : ℝ) : ℂ) * Complex.I)
+      = (((Real.pi * d / (2 * n) : ℝ)) : ℂ) * Complex.I := by
+    push_cast; field_simp; ring
+  rw [this, Complex.exp_mul_I, ← Complex.ofReal_cos, ← Complex.ofReal_sin]
+
 /-- With `θm = -π/(2n)`, `θc = π/n` and the auxiliary initially `|0⟩` (`ψ` vanishes on labels with
 the auxiliary bit set): the output amplitude on `aux = 0` is `cos(π d/2n)·ψ b`. -/
 theorem pqm_amp0 (n : Nat) (hn : 0 < n) (classical : Bool) (pattern : Nat → Bool)
@@ -10,7 +49,12 @@ theorem pqm_amp0 (n : Nat) (hn : 0 < n) (classical : Bool) (pattern : Nat → Bo
     (haux : ∀ b, b aux = true → ψ b = 0) (b : Bits) (hb : b aux = false) :
     sem (pqm n classical pattern mem pat aux (-(Real.pi / (2 * n)) : ℝ) (Real.pi / n : ℝ)) ψ b
       = (Real.cos (Real.pi * (pqmDist n classical pattern mem pat b) / (2 * n)) : ℂ) * ψ b := by
-  sorry
+  rw [pqm_correct n classical pattern mem pat aux hw]
+  have h1 : ψ (setBit b aux true) = 0 := haux _ (setBit_eq b aux true)
+  have h0 : setBit b aux false = b := by rw [← hb, setBit_self]
+  simp only [pqmIdeal, hb, h0, h1, pqm_z0 n hn, pqm_z1 n hn, rh_sq_real]
+  simp only [Bool.false_eq_true, if_false, mul_zero, add_zero]
+  ring
 
 /-- … and on `aux = 1` it is `-i·sin(π d/2n)·ψ b`. -/
 theorem pqm_amp1 (n : Nat) (hn : 0 < n) (classical : Bool) (pattern : Nat → Bool)
@@ -20,6 +64,12 @@ theorem pqm_amp1 (n : Nat) (hn : 0 < n) (classical : Bool) (pattern : Nat → Bo
         (setBit b aux true)
       = -Complex.I * (Real.sin (Real.pi * (pqmDist n classical pattern mem pat b) / (2 * n)) : ℂ)
           * ψ b := by
-  sorry
+  rw [pqm_correct n classical pattern mem pat aux hw]
+  have h1 : ψ (setBit b aux true) = 0 := haux _ (setBit_eq b aux true)
+  have h0 : setBit b aux false = b := by rw [← hb, setBit_self]
+  simp only [pqmIdeal, setBit_eq, setBit_setBit, pqmDist_setBit_aux hw, h0, h1, pqm_z0 n hn,
+    pqm_z1 n hn, rh_sq_real]
+  simp only [if_true, mul_zero, add_zero]
+  ring
 
 end Qclib
